@@ -339,5 +339,40 @@ def aliases_caller_object(expr, fn, depth=3):
     return False
 
 
+def list_built_over(expr, fn):
+    """If `expr` denotes a list with exactly one element per element of an iterable, in order, return that iterable:
+       * [f(t) for t in IT]  (no filter), list(map(f, IT)), or
+       * a local `xs = []` that is only extended by one unconditional `xs.append(...)` in the body of `for t in IT:`
+         (no break / continue in that loop).
+    Otherwise None."""
+    e = expr
+    if isinstance(e, ast.Starred):
+        e = e.value
+    if isinstance(e, (ast.ListComp, ast.GeneratorExp)) and len(e.generators) == 1 and not e.generators[0].ifs:
+        return e.generators[0].iter
+    if isinstance(e, ast.Call) and A.dotted(e.func) in ('list', 'tuple') and len(e.args) == 1:
+        inner = e.args[0]
+        if isinstance(inner, ast.Call) and A.dotted(inner.func) == 'map' and len(inner.args) == 2:
+            return inner.args[1]
+        return list_built_over(inner, fn)
+    if isinstance(e, ast.Name):
+        defs = assigned_names(fn).get(e.id, [])
+        if len(defs) == 1:
+            d = defs[0]
+            empty = (isinstance(d, ast.List) and not d.elts) or (isinstance(d, ast.Call) and A.dotted(d.func) == 'list' and not d.args)
+            if not empty:
+                return list_built_over(d, fn)
+            appends = [c for c in A.walk_local(fn) if isinstance(c, ast.Call) and isinstance(c.func, ast.Attribute)
+                       and A.is_name(c.func.value, e.id) and c.func.attr in ('append', 'extend', 'insert', 'pop', 'remove', 'clear')]
+            if len(appends) == 1 and appends[0].func.attr == 'append':
+                stmt = A.parent(appends[0])
+                loop = A.parent(stmt) if isinstance(stmt, ast.Expr) else None
+                if isinstance(loop, ast.For) and any(stmt is s for s in loop.body) and not loop.orelse \
+                        and not any(isinstance(x, (ast.Break, ast.Continue)) for x in A.walk_stmts(loop.body)) \
+                        and not any(isinstance(x, ast.Return) for x in A.walk_stmts(loop.body)):
+                    return loop.iter
+    return None
+
+
 def returns_of(fn):
     return [n for n in A.walk_local(fn) if isinstance(n, ast.Return)]
